@@ -12,6 +12,7 @@ import (
 	"math/rand"
 	"os"
 	"strconv"
+	"sync"
 
 	"github.com/zmap/zcrypto/tls"
 	"verifharness/lib/obs"
@@ -178,9 +179,63 @@ func main() {
 		w := obs.NewWriter(os.Args[3])
 		record(w, h)
 		w.Close()
+	case "conc":
+		// conc <out.ndjson> <traces> <goroutines> <ops per goroutine>: overlapping calls from
+		// several goroutines on one real cache; "call" is logged before the call starts and
+		// "ret" after it returned, both under the recorder's lock (real-time order).
+		traces, _ := strconv.Atoi(os.Args[3])
+		ng, _ := strconv.Atoi(os.Args[4])
+		nops, _ := strconv.Atoi(os.Args[5])
+		w := obs.NewWriter(os.Args[2])
+		rng := rand.New(rand.NewSource(obs.Seed()))
+		for t := 0; t < traces; t++ {
+			concTrace(w, rng.Int63(), 1+rng.Intn(3), ng, nops)
+		}
+		w.Close()
+		obs.Stat("events", w.N)
 	default:
 		obs.Fatal("unknown command")
 	}
+}
+
+func concTrace(w *obs.Writer, seed int64, cp, ng, nops int) {
+	for id := 1; id <= 6; id++ {
+		sess(id) // allocate the session identities before goroutines start
+	}
+	c := tls.NewLRUClientSessionCache(cp)
+	var mu sync.Mutex
+	log := func(v map[string]any) {
+		mu.Lock()
+		w.Write(v)
+		mu.Unlock()
+	}
+	log(map[string]any{"ev": "reset", "cap": cp})
+	var wg sync.WaitGroup
+	for g := 1; g <= ng; g++ {
+		wg.Add(1)
+		go func(g int) {
+			defer wg.Done()
+			rng := rand.New(rand.NewSource(seed + int64(g)*7919))
+			for i := 0; i < nops; i++ {
+				k := fmt.Sprintf("k%d", rng.Intn(cp+2))
+				switch r := rng.Intn(10); {
+				case r < 5:
+					log(map[string]any{"ev": "call", "g": g, "op": "get", "k": k, "v": 0})
+					s, ok := c.Get(k)
+					log(map[string]any{"ev": "ret", "g": g, "rv": idOf(s), "ok": ok})
+				default:
+					v := 0
+					if r < 9 {
+						v = 1 + rng.Intn(6)
+					}
+					log(map[string]any{"ev": "call", "g": g, "op": "put", "k": k, "v": v})
+					c.Put(k, sessions[v])
+					log(map[string]any{"ev": "ret", "g": g, "rv": 0, "ok": false})
+				}
+			}
+		}(g)
+	}
+	wg.Wait()
 }
 
 func nontrivial(h History) bool { return h.NT }
